@@ -199,7 +199,7 @@ def c19_cases(res):
 
 
 def run(prop, tier, seed, replay=None):
-    level = "model_checking"
+    level = "fault_enumeration" if prop == "C18" else "model_checking"
     rep = Report(prop, tier, seed, level)
     thorough = tier == "thorough"
     cfgs = ["MC_Build_c18.cfg"] if prop == "C18" else ["MC_Build_c19.cfg", "MC_Build_c19_3.cfg"]
@@ -254,7 +254,6 @@ def run(prop, tier, seed, replay=None):
                     "steps": [{k: v for k, v in s.items() if k not in ("live",)} for s in c["steps"][:4]]})
     rep.extra["points_per_scenario"] = pts
     if prop == "C18":
-        rep.level = "model_checking"
         rep.rule = (
             "3 worlds x {first build, rebuild after a change, cache-miss resolution} x fault sources: invalid method (misuse of call_next, "
             "conflicting positional names, positional/keyword clash, unreadable source) at every registration position; user hook raising on "
